@@ -290,9 +290,9 @@ func c06Integers(r *Run) {
 					r.Violate("status-not-as-configured", "round-trip", fmt.Sprintf("PreflightSuccessStatus %d (debug=%v): a succeeding preflight is answered with status %d", st, dbg, o.Status), nil)
 					return
 				}
-				if dbg {
-					if f := serve(m, preflightReq("https://example.com", "UNLISTED", nil, false)); f.Status != st {
-						r.Violate("status-not-as-configured", "round-trip", fmt.Sprintf("PreflightSuccessStatus %d, debug on: a preflight failing at the method step is answered with status %d", st, f.Status), nil)
+				if dbg { // (which ok status a FAILING preflight gets in debug mode is left open: only "an ok status")
+					if f := serve(m, preflightReq("https://example.com", "UNLISTED", nil, false)); !f.ok2xx() {
+						r.Violate("debug-failure-status-not-ok", "round-trip", fmt.Sprintf("PreflightSuccessStatus %d, debug on: a preflight failing at the method step is answered with status %d, which is not an ok status", st, f.Status), nil)
 						return
 					}
 				}
